@@ -138,6 +138,11 @@ def c07(case, diff, o, v):
         # (the nested run is the legacy analyzer: the comment has to be glued to a word character, as under KF-30c)
         if _feat(case)["select_has_subquery"] and _re.search(r"[\w\"'`\]]/\*|\*/[\w\"'`\[]", txt):
             return "KF-13"
+    if case.get("dialect") != "non-validating" and kinds & {"hash", "ins_hash"} and (diff == ["column_pairs"] or (diff is None and v.get("outcome") == "SQLLineageException")):
+        # KF-13 once more: sqlparse's lexer knows '# ' (hash and a blank) as a line comment but not '#c'; the dialect's own lexer takes both, so a
+        # glued hash comment inside a select-item sub-query reaches the nested legacy run as tokens (phantom column, or 'An Identifier is expected')
+        if _feat(case)["select_has_subquery"] and _re.search(r"#[^\s#]", txt):
+            return "KF-13"
     if case.get("dialect") != "non-validating" and kinds & {"upper", "swap", "mixed", "lower"} and diff == ["column_pairs"]:
         # KF-13 again: the nested run is the legacy analyzer, whose CAST(... AS type(n)) handling depends on letter case (KF-30b)
         if _feat(case)["select_has_subquery"] and _re.search(r"(?i)\bcast\s*\(", case.get("sql", "")) and _re.search(r"(?i)\bas\s+[a-z_]+\s*\(", case.get("sql", "")):
